@@ -130,26 +130,12 @@ func c01Rows(a *A, r *Roles, ar *Arms) {
 		// appended element = result 0 of conv
 		appended := false
 		for _, s := range r.Tran.stores() {
-			if s.Fn != r.Parser || !ar.of[s.Store.Block()][arm] {
+			if s.Fn != r.Parser || !ar.of[s.block()][arm] {
 				continue
 			}
-			kind, elems := bufferStoreKind(r, s.Store)
-			if kind != "append" {
-				continue
-			}
-			if sl, ok := elems.(*ssa.Slice); ok {
-				if al, ok := sl.X.(*ssa.Alloc); ok {
-					for _, ref := range *al.Referrers() {
-						if ia, ok := ref.(*ssa.IndexAddr); ok {
-							for _, rr := range *ia.Referrers() {
-								if st, ok := rr.(*ssa.Store); ok {
-									if ex, ok := resolve(st.Val).(*ssa.Extract); ok && ex.Tuple == ssa.Value(conv) && ex.Index == 0 {
-										appended = true
-									}
-								}
-							}
-						}
-					}
+			for _, v := range appendedElems(r, s) {
+				if ex, ok := v.(*ssa.Extract); ok && ex.Tuple == ssa.Value(conv) && ex.Index == 0 {
+					appended = true
 				}
 			}
 		}
@@ -448,19 +434,12 @@ func c01Query(a *A, r *Roles, ar *Arms) {
 		if st.Fn != r.Parser || st.Field != "" {
 			continue
 		}
-		kind, elems := bufferStoreKind(r, st.Store)
-		if kind != "append" || appendedCount(elems) != 1 {
+		es := appendedElems(r, st)
+		if len(es) != 1 {
 			continue
 		}
-		sl := elems.(*ssa.Slice)
-		for _, ref := range *sl.X.(*ssa.Alloc).Referrers() {
-			if ia, ok := ref.(*ssa.IndexAddr); ok {
-				for _, rr := range *ia.Referrers() {
-					if s2, ok := rr.(*ssa.Store); ok && good[resolve(s2.Val)] {
-						appendOf[st.Store.Block()] = true
-					}
-				}
-			}
+		if good[es[0]] {
+			appendOf[st.block()] = true
 		}
 	}
 	for _, p := range ar.Preds {
